@@ -603,6 +603,25 @@ static void run_c07(const RunSpec& s, RunResult& R) {
   for (size_t j = 0; j < s.P.calls.size(); ++j) {
     const Call& c = s.P.calls[j];
     int i = c.repeat_of;
+    if (i >= 0 && c.op >= OP_R4_1COL_REF && c.op <= OP_CPLX_ADDMUL_KAVX512 && a.done[i] && a.done[j]) {
+      // exact-arithmetic operands: the twins must agree numerically (+0 and -0 are the same number)
+      const uint64_t nd = s.P.slots[c.s[0]].n;
+      const double* x = (const double*)a.ptr[s.P.calls[i].s[0]];
+      const double* y = (const double*)a.ptr[c.s[0]];
+      pairs++;
+      for (uint64_t k = 0; k < nd; ++k)
+        if (!(x[k] == y[k])) {
+          Violation v;
+          v.kind = "dispatch-dependent-output";
+          v.detail = std::string(op_info[c.op].name) + " disagrees with " + op_info[s.P.calls[i].op].name + " at component " + std::to_string(k) + " on operands whose products and sums are exactly representable";
+          v.call = (int)j;
+          v.op = c.op;
+          R.viol.push_back(v);
+          R.status = "violation";
+          break;
+        }
+      continue;
+    }
     if (i >= 0 && c.op >= OP_ZNX_ADD_REF && c.op <= OP_RNX_DIV_AVX && a.done[i] && a.done[j]) {
       // data-movement / integer / one-multiplication kernels: the twins return identical bytes
       const uint64_t nb = s.P.slots[c.s[0]].n * 8;
